@@ -102,11 +102,11 @@ def _v9_task(task, out, only=None):
     return len(out["violations"]) - before
 
 
-def _assignments(ng, tier):
+def _assignments(ng, tier, numel=0):
     C = wq.CLASSES
     if len(C) ** ng <= 200:
         return list(itertools.product(range(len(C)), repeat=ng))
-    if ng == 3 and tier == "thorough":
+    if ng == 3 and tier == "thorough" and numel <= 32:
         return list(itertools.product(range(len(C)), repeat=3))
     return [tuple((k + s) % len(C) for k in range(ng)) for s in range(len(C))]
 
@@ -119,7 +119,10 @@ def _classes_task(task, out):
     only = task.get("only")
     for shape, axis, gs in cfgs:
         gid, pos, ng, gsz = wq.group_ids(shape, axis, gs)
-        for asg in _assignments(ng, tier):
+        numel = 1
+        for d in shape:
+            numel *= d
+        for asg in _assignments(ng, tier, numel):
             if only and only != [list(shape), axis, gs, list(asg)]:
                 continue
             table = torch.stack([wq.gen_class(wq.CLASSES[c], gsz, dtname, k) for k, c in enumerate(asg)])
